@@ -305,3 +305,37 @@ func L2Features() []MethodCase {
 	}
 	return out
 }
+
+// L2CrossService: designs of two services whose methods bear the SAME names (and hence the same
+// names for the request/response body types goa synthesises per service) with different or
+// identical shapes: {payload body, result body, path parameter type} x {differs, identical}.
+func L2CrossService() []MethodCase {
+	var out []MethodCase
+	type variant struct {
+		payload, result *Type
+		path            string
+	}
+	mk := func(group, name, svcIdx, what string, v variant) {
+		m := &Method{Name: name, Payload: v.payload, Result: v.result, HTTP: &HTTPMap{Verb: "POST", Path: "/" + group + "/" + svcIdx + "/" + name + v.path},
+			Feat: map[string]string{"family": "L2-cross-service", "shape": what, "service": svcIdx, "valid": what, "pos": "cross-service", "loc": LocBody, "req": "required"}}
+		out = append(out, MethodCase{M: m, Group: group})
+	}
+	str := func(v *Valid) *Type { return WithV(P(KString), v) }
+	// 1. same method name, payload bodies differ in a validation
+	mk("g1", "create", "a", "payload-validation-differs", variant{payload: ObjT([]string{"name"}, A("name", str(&Valid{MaxLen: I(3)}))), result: ObjT([]string{"id"}, A("id", P(KInt)))})
+	mk("g1", "create", "b", "payload-validation-differs", variant{payload: ObjT([]string{"name"}, A("name", str(&Valid{MaxLen: I(8)}))), result: ObjT([]string{"id"}, A("id", P(KInt)))})
+	// 2. same method name, result bodies differ in type and validation
+	mk("g2", "show", "a", "result-differs", variant{payload: ObjT([]string{"id"}, A("id", P(KInt))), path: "/{id}", result: ObjT([]string{"title"}, A("title", str(&Valid{MinLen: I(2)})), A("n", P(KInt)))})
+	mk("g2", "show", "b", "result-differs", variant{payload: ObjT([]string{"id"}, A("id", P(KString))), path: "/{id}", result: ObjT([]string{"title"}, A("title", str(&Valid{MaxLen: I(3)})), A("n", P(KString)))})
+	// 3. same method name, attribute sets differ
+	mk("g3", "update", "a", "attribute-sets-differ", variant{payload: ObjT([]string{"aa"}, A("aa", P(KString)), A("bb", P(KInt))), result: ObjT(nil, A("ra", P(KString)))})
+	mk("g3", "update", "b", "attribute-sets-differ", variant{payload: ObjT([]string{"bb"}, A("bb", P(KString)), A("cc", P(KBool))), result: ObjT(nil, A("rb", P(KBool)))})
+	// 4. control: identical methods in both services
+	mk("g4", "ping", "a", "identical", variant{payload: ObjT([]string{"q"}, A("q", str(&Valid{MinLen: I(1)}))), result: ObjT(nil, A("ok", P(KString)))})
+	mk("g4", "ping", "b", "identical", variant{payload: ObjT([]string{"q"}, A("q", str(&Valid{MinLen: I(1)}))), result: ObjT(nil, A("ok", P(KString)))})
+	// 5. three services, enum differs
+	for i, en := range [][]any{{"x"}, {"x", "y"}, {"z"}} {
+		mk("g5", "tag", string(rune('a'+i)), "enum-differs", variant{payload: ObjT([]string{"t"}, A("t", str(&Valid{Enum: en}))), result: ObjT(nil, A("ok", P(KString)))})
+	}
+	return out
+}
